@@ -157,6 +157,15 @@ func runTimedSpec(s timedSpec) (obs runObs, elapsed time.Duration, err error) {
 		return runObs{}, 0, e
 	}
 	r.Stdout, r.Stderr = devNull{}, devNull{}
+	if s.interactive {
+		// an interactive task is attached to the runner's standard input: a terminal nobody types on - open and idle
+		pr, pw, perr := os.Pipe()
+		if perr == nil {
+			r.Stdin = pr
+			defer pr.Close()
+			defer pw.Close()
+		}
+	}
 	t0 := time.Now()
 	done := make(chan error, 1)
 	go func() { done <- r.Run(t) }()
